@@ -665,6 +665,38 @@ def r01_8(ctx):
     ctx.findings[:] = [f for f in ctx.findings if not (f.rule == ctx._rule and f.construct in dropped)]
 
 
+def r01_9(ctx):
+    """R01.9 (a) where the falsy value is a legal user value - the empty string of a string option, n of a bool - the
+    evaluators test the presence of a user value with `is not None`, never by truthiness (otherwise `S=""` / `B=n` lose
+    against `set default` and the defaults); (b) numbers compared in conditions are parsed in the base of their type:
+    no int(text, 0) in the evaluators (a hex value `10` is sixteen, with or without 0x)."""
+    from .common import no_autodetected_base
+    repo = ctx.repo
+    for q, want_type in ((f"{CORE}:Symbol.str_value", "self.orig_type == STRING"), (f"{CORE}:Symbol.bool_value", None)):
+        f = repo.func(q)
+        ctx.analysed(f.qual)
+        fl = Flow(f.node, resolver=Resolver(f.node)).run()
+        k = 0
+        for n in ast.walk(f.node):
+            if not (isinstance(n, ast.Assign) and "self._user_value" in ast.unparse(n.value)):
+                continue
+            gs = fl.guards_at(n) or set()
+            if want_type is not None and (want_type, True) not in gs:
+                continue
+            if want_type is None and ("self.choice", False) not in gs:
+                continue
+            k += 1
+            construct = f"{f.short}/user value #{k} admitted on presence, not truthiness ({'STRING' if want_type else 'non-choice bool'})"
+            if ("self._user_value is None", False) in gs:
+                ctx.ok(construct, f.loc(n))
+            elif ("self._user_value", True) in gs:
+                ctx.bad(construct, "the user value is admitted only when it is truthy: an empty string / n set by the user is treated as "
+                        "`no user value` and loses against `set default` and the defaults", f.loc(n))
+            else:
+                ctx.bad(construct, f"no presence test of the user value dominates `{ast.unparse(n)[:50]}`", f.loc(n))
+    no_autodetected_base(ctx, [CORE], "relations in conditions (`H > 12`) compare a hex option's value as decimal when it has no 0x prefix")
+
+
 def rules():
-    return [("R01.1", r01_1, 9), ("R01.2", r01_2, 5), ("R01.3", r01_3, 5), ("R01.4", r01_4, 12), ("R01.5", r01_5, 7),
+    return [("R01.9", r01_9, 10), ("R01.1", r01_1, 9), ("R01.2", r01_2, 5), ("R01.3", r01_3, 5), ("R01.4", r01_4, 12), ("R01.5", r01_5, 7),
             ("R01.6", r01_6, 5), ("R01.7", r01_7, 4), ("R01.8", r01_8, 14)]
